@@ -90,16 +90,30 @@ EmitsBytes(s) ==
 \* value of an immediate-like source operand under a symbol table (only when OpDefined)
 OpVal(o, env) ==
   CASE o.t = "i" -> o.v
-    [] o.t = "l" -> (IF o.nm = "$" THEN env.dollar ELSE env.sym[o.nm]) + o.add
-    [] o.t = "m" -> IF o.lab = "" THEN o.d ELSE env.sym[o.lab] + o.d
+    [] o.t = "l" -> (IF o.nm = "$" THEN env.dollar
+                     ELSE IF o.nm \in DOMAIN env.equ THEN Eval(env.equ[o.nm], env) ELSE env.sym[o.nm]) + o.add
+    [] o.t = "m" -> IF o.lab = "" THEN o.d
+                    ELSE (IF o.lab \in DOMAIN env.equ THEN Eval(env.equ[o.lab], env) ELSE env.sym[o.lab]) + o.d
     [] OTHER -> 0
 
 OpDefined(o, env) ==
-  CASE o.t = "l" -> o.nm = "$" \/ o.nm \in DOMAIN env.sym
-    [] o.t = "m" -> o.lab = "" \/ o.lab \in DOMAIN env.sym
+  CASE o.t = "l" -> o.nm = "$" \/ o.nm \in DOMAIN env.sym \/ (o.nm \in DOMAIN env.equ /\ Defined(env.equ[o.nm], env))
+    [] o.t = "m" -> o.lab = "" \/ o.lab \in DOMAIN env.sym \/ (o.lab \in DOMAIN env.equ /\ Defined(env.equ[o.lab], env))
     [] OTHER -> TRUE
 
 OpsDefined(ops, env) == \A j \in 1..Len(ops) : OpDefined(ops[j], env)
+
+\* operands that name an EQU constant are, by C11, the constant itself
+ResolveEqu(s, env) ==
+  IF s.k # "ins" THEN s
+  ELSE [s EXCEPT !.ops = [j \in 1..Len(s.ops) |->
+         LET o == s.ops[j] IN
+         IF o.t = "l" /\ o.nm \in DOMAIN env.equ /\ Defined(env.equ[o.nm], env)
+         THEN [t |-> "i", v |-> OpVal(o, env), sty |-> "d"]
+         ELSE IF o.t = "m" /\ o.lab # "" /\ o.lab \in DOMAIN env.equ /\ Defined(env.equ[o.lab], env)
+         THEN [o EXCEPT !.d = Eval(env.equ[o.lab], env) + o.d, !.lab = ""]
+         ELSE o]]
+
 HasMem(ops) == \E j \in 1..Len(ops) : ops[j].t = "m"
 HasLabel(ops) == \E j \in 1..Len(ops) : ops[j].t = "l" \/ (ops[j].t = "m" /\ ops[j].lab # "")
 =============================================================================
